@@ -2,28 +2,38 @@ import NfcVerif.Py
 /-!
 # C16 - retry / exception structure of the tag commands
 
-Two layers.
+Three layers.
 
 * **Primitives** (`prim`): `Type1Tag.transceive`, `Type2Tag.transceive`
-  (tt1.py:453, tt2.py:565: `for retry in range(1 + retries)` around
-  `clf.exchange`, `break` at the first answer, class -> errno mapping in the
-  `else` branch), `Type3Tag.send_cmd_recv_rsp` (tt3.py:678, same loop plus the
-  response length checks), the ISO-DEP block exchange of `tt4.py` reduced to
-  what decides retries (I-block, R(NAK) after timeout / transmission error with
-  the budget `n_retry_nak`, retransmission after R(ACK), protocol error is
-  final) and a bare `clf.exchange` (`raw`: Type 4 presence check).  The air
-  interface is a *fault script*: one letter per `exchange` call.
+  (tt1.py, tt2.py: `for retry in range(1 + retries)` around `clf.exchange`,
+  `break` at the first answer, class -> errno mapping in the `else` branch; Type 2:
+  the guard `if not self.target: raise TIMEOUT_ERROR` in front of the loop and the
+  re-activation `self._target = clf.sense(...)` after a NAK answer to READ),
+  `Type3Tag.send_cmd_recv_rsp` (tt3.py, same loop plus the response length checks),
+  the ISO-DEP block exchange of `tt4.py` reduced to what decides retries (I-block,
+  R(NAK) after timeout / transmission error with the budget `n_retry_nak`,
+  retransmission after R(ACK), protocol error is final; the reason code of an
+  unrecoverable error is remembered in `IsoDepInitiator.errno` and every later
+  command is refused with it before a frame is sent) and a bare `clf.exchange`
+  (`raw`: Type 4 presence check).  The air interface is a *fault script*: one
+  letter per `exchange` call, and a *sense script*: one boolean per `clf.sense` call.
 
 * **Command programs** (`Prog`): a tag operation is a tree of primitive calls;
   each call says what the tag answers when the command gets through (accepted /
-  refused with a reason code / silence), which exception class the enclosing
-  `try` catches and how the operation continues in either case.  `Ops.prog`
-  gives the program of every public operation of every modelled tag class from
-  the command sequence of the fault-free run (which commands are needed is data
+  refused with a reason code / silence / NAK / accepted once), which exception class
+  the enclosing `try` catches and how the operation continues in either case.
+  `Ops.prog` gives the program of every public operation of every modelled tag class
+  from the command sequence of the fault-free run (which commands are needed is data
   dependent and is the subject of C01-C03; here it is an arbitrary parameter).
 
-`Cfg` selects as-found / repaired behaviour of the three defects that were
-repaired (F17, F31 for Type 3, F32); the defects left open are modelled as found.
+* **Sessions** (`session`): several operations on the same tag object.  What the tag
+  object carries from one operation to the next is part of the state: the cached NDEF
+  object (`Tag._ndef`), `Type2Tag._target` (`World.gone`), `IsoDepInitiator.errno`
+  (`World.sticky`) and whether the frontend still has a target (`World.lost`).
+
+`Cfg` selects as-found / repaired behaviour of the defects that were repaired
+(F17, F31 for Type 3, F32, sector select, ISO-DEP unknown error class); the defects
+left open are modelled as found.
 -/
 namespace NfcVerif.Retry
 
@@ -55,12 +65,27 @@ structure Cmd where
   write : Bool := false
   deriving DecidableEq, Repr
 
-/-- what the tag does with a command that reaches it -/
-inductive Ans
+/-- what the tag does with a command that reaches it (at one execution) -/
+inductive Rsp
   | ok                    -- answers, the answer passes the response checks
   | refuse (errno : Int)  -- answers, the response check raises TagCommandError(errno)
   | mute                  -- stays silent (the reader reports a timeout)
+  | nak                   -- Type 2 READ answered with NAK: the tag must be activated again (tt2.py `read`)
   deriving DecidableEq, Repr
+
+/-- what the tag does with a command, as a function of whether it has executed the same frame before
+(`once e`: a command that is not idempotent - FeliCa Lite-S write with MAC, the write counter is part
+of the MAC - is accepted the first time and refused with `e` when the identical frame arrives again) -/
+inductive Ans
+  | ok | refuse (errno : Int) | mute | nak
+  | once (errno : Int)
+  deriving DecidableEq, Repr
+
+/-- the answer at this execution; `again`: the tag has executed this frame before -/
+def Ans.eff (a : Ans) (again : Bool) : Rsp :=
+  match a with
+  | .ok => .ok | .refuse e => .refuse e | .mute => .mute | .nak => .nak
+  | .once e => if again then .refuse e else .ok
 
 /-- one invocation of a primitive: command, attempts in order (`true` = the tag stayed mute on a delivered command) -/
 structure Inv where
@@ -72,6 +97,10 @@ structure World where
   script : List Att
   log : List Inv := []
   applied : List Cmd := []     -- commands executed by the tag, in order
+  senses : List Bool := []     -- result of each `clf.sense` call in order (exhausted: the tag is found)
+  gone : Bool := false         -- Type 2 tag object: `tag.target` is None (a re-activation failed)
+  lost : Bool := false         -- the frontend has no target any more: `clf.exchange` returns None
+  sticky : Option Int := none  -- ISO-DEP initiator: reason code of the unrecoverable error (`_dep.errno`)
   deriving Repr
 
 structure Cfg where
@@ -100,7 +129,23 @@ def World.push (w : World) (c : Cmd) (atts : List (Att × Bool)) : World :=
 def World.apply (w : World) (c : Cmd) : World := { w with applied := w.applied ++ [c] }
 
 /-- the tag executes `c` if it accepts it -/
-def World.exec (w : World) (c : Cmd) (a : Ans) : World := if a = .ok then w.apply c else w
+def World.exec (w : World) (c : Cmd) (a : Rsp) : World := if a = .ok then w.apply c else w
+
+/-- `clf.sense(target)`: the frontend keeps or drops its target -/
+def World.sense (w : World) : Bool × World :=
+  match w.senses with
+  | [] => (true, { w with lost := false })
+  | b :: r => (b, { w with senses := r, lost := !b })
+
+/-- `self._target = self.clf.sense(self.target)` (tt2.py `read`, tt2_nxp.py `_protect_with_password`) -/
+def World.reactivate (w : World) : Bool × World :=
+  let r := w.sense
+  (r.1, { r.2 with gone := !r.1 })
+
+/-- `IsoDepInitiator.exchange`: `except Type4TagCommandError as error: self.errno = error.errno` -/
+def World.stick (w : World) : Exc → World
+  | .tagCmd n => { w with sticky := some n }
+  | _ => w
 
 /-- result of the `else` branch of the retry loop -/
 def exhausted (cfg : Cfg) (k : PrimKind) (last : Fault) : Exc :=
@@ -119,36 +164,48 @@ def shortExc (cfg : Cfg) (idm : Bool) (k : Nat) : Exc :=
     | 2 => if idm then .index else .tagCmd 4   -- rsp[10]; polling: DATA_SIZE_ERROR
     | _ => if idm then .struct else .tagCmd 4  -- unpack(">H", rsp[10:12])
 
+/-- the tag has executed the frame in an earlier attempt of this call (its answer was lost) -/
+def executed (acc : List (Att × Bool)) : Bool :=
+  acc.any fun x => match x.1 with | .flt _ r => r | _ => false
+
+/-- the answer of the tag has arrived and is checked by the caller of `transceive` -/
+def answered (c : Cmd) (a : Rsp) (x : Att × Bool) (acc : List (Att × Bool)) (w : World) : (Py Unit) × World :=
+  match a with
+  | .refuse e => (.error (.tagCmd e), w.push c (acc ++ [x]))
+  | .nak =>   -- tt2.py read(): INVALID_PAGE_ERROR if the tag is found again else RECEIVE_ERROR
+    let r := w.reactivate
+    (.error (.tagCmd (if r.1 then 2 else -1)), r.2.push c (acc ++ [x]))
+  | _ => (.ok (), w.push c (acc ++ [x]))
+
 /-- `for retry in range(n): try: rsp = exchange(cmd); break; except CommunicationError ...`
 (`n` attempts left, `last` the class of the previous failure). -/
-def loop (cfg : Cfg) (k : PrimKind) (idm : Bool) (c : Cmd) (a : Ans) :
+def loop (cfg : Cfg) (k : PrimKind) (idm : Bool) (c : Cmd) (a0 : Ans) :
     Nat → Option Fault → List (Att × Bool) → World → (Py Unit) × World
   | 0, last, acc, w =>
     (.error (match last with | some f => exhausted cfg k f | none => .unbound), w.push c acc)
   | n+1, _, acc, w =>
+    let a := a0.eff (executed acc)
     let (att, w) := nextAtt w
     match att with
     | .ans =>
       let w := w.exec c a
       match a with
-      | .ok => (.ok (), w.push c (acc ++ [(att, false)]))
-      | .refuse e => (.error (.tagCmd e), w.push c (acc ++ [(att, false)]))
-      | .mute => loop cfg k idm c a n (some .timeout) (acc ++ [(att, true)]) w
+      | .mute => loop cfg k idm c a0 n (some .timeout) (acc ++ [(att, true)]) w
+      | a => answered c a (att, false) acc w
     | .flt f reached =>
-      loop cfg k idm c a n (some f) (acc ++ [(att, false)]) (if reached then w.exec c a else w)
+      loop cfg k idm c a0 n (some f) (acc ++ [(att, false)]) (if reached then w.exec c a else w)
     | .short s =>
       let w := w.exec c a
       match a with
-      | .mute => loop cfg k idm c a n (some .timeout) (acc ++ [(att, true)]) w
-      | _ => if k = .t3 then (.error (shortExc cfg idm s), w.push c (acc ++ [(att, false)]))
-             else match a with
-               | .refuse e => (.error (.tagCmd e), w.push c (acc ++ [(att, false)]))
-               | _ => (.ok (), w.push c (acc ++ [(att, false)]))
+      | .mute => loop cfg k idm c a0 n (some .timeout) (acc ++ [(att, true)]) w
+      | a => if k = .t3 then (.error (shortExc cfg idm s), w.push c (acc ++ [(att, false)]))
+             else answered c a (att, false) acc w
 
 /-- end of an ISO-DEP exchange whose answer arrived -/
-def depDone (c : Cmd) (a : Ans) (w : World) (acc : List (Att × Bool)) : (Py Unit) × World :=
+def depDone (c : Cmd) (a : Rsp) (w : World) (acc : List (Att × Bool)) : (Py Unit) × World :=
   match a with
   | .refuse e => (.error (.tagCmd e), w.push c acc)
+  | .nak => (.error (.tagCmd 2), w.push c acc)
   | _ => (.ok (), w.push c acc)
 
 /-- the `except` clauses of the block loop for frame number `i`: `none` = send R(NAK) and go on -/
@@ -159,11 +216,11 @@ def depFail (cfg : Cfg) (budget i : Nat) (f : Fault) : Option Exc :=
   | .transmission => if i ≤ budget then none else some (.tagCmd (-1))
   | f => some (if cfg.fixT4 then .tagCmd (-1) else f.exc)
 
-/-- ISO-DEP exchange of one unchained command (tt4.py `IsoDepInitiator.exchange`).  `i` counts
-the frames of this exchange from 1, `nak`: the next frame is R(NAK) instead of the I-block,
-`has`: the card has executed the command.  Recursion on `fuel`; `fuel = budget + 3` is never
-used up (`dep_spec`). -/
-def dep (cfg : Cfg) (budget : Nat) (c : Cmd) (a : Ans) :
+/-- ISO-DEP exchange of one unchained command (tt4.py `IsoDepInitiator._exchange_command` inside
+`exchange`).  `i` counts the frames of this exchange from 1, `nak`: the next frame is R(NAK) instead
+of the I-block, `has`: the card has executed the command.  A Type4TagCommandError leaving the block
+loop is remembered (`stick`).  Recursion on `fuel`; `fuel = budget + 3` is never used up (`dep_spec`). -/
+def dep (cfg : Cfg) (budget : Nat) (c : Cmd) (a : Rsp) :
     Nat → Nat → Bool → Bool → List (Att × Bool) → World → (Py Unit) × World
   | 0, _, _, _, acc, w => (.error .outOfFuel, w.push c acc)
   | fuel+1, i, nak, has, acc, w =>
@@ -173,12 +230,12 @@ def dep (cfg : Cfg) (budget : Nat) (c : Cmd) (a : Ans) :
       let w := if exec then w.exec c a else w
       let acc := acc ++ [(.flt f reached, false)]
       match depFail cfg budget i f with
-      | some e => (.error e, w.push c acc)
+      | some e => (.error e, (w.push c acc).stick e)
       | none => dep cfg budget c a fuel (i+1) true (has || exec) acc w
     | (att, w) =>
       if a = .mute then
         match depFail cfg budget i .timeout with
-        | some e => (.error e, w.push c (acc ++ [(att, true)]))
+        | some e => (.error e, (w.push c (acc ++ [(att, true)])).stick e)
         | none => dep cfg budget c a fuel (i+1) true has (acc ++ [(att, true)]) w
       else if nak then
         if has then depDone c a w (acc ++ [(att, false)])
@@ -186,13 +243,14 @@ def dep (cfg : Cfg) (budget : Nat) (c : Cmd) (a : Ans) :
       else depDone c a (w.exec c a) (acc ++ [(att, false)])
 
 /-- a bare `clf.exchange` (no retry, the CommunicationError is raised as it is) -/
-def rawx (c : Cmd) (a : Ans) (w : World) : (Py Unit) × World :=
+def rawx (c : Cmd) (a : Rsp) (w : World) : (Py Unit) × World :=
   let (att, w) := nextAtt w
   match att with
   | .flt f reached => (.error f.exc, (if reached then w.exec c a else w).push c [(att, false)])
   | _ => match a with
     | .mute => (.error .timeout, w.push c [(att, true)])
     | .refuse e => (.error (.tagCmd e), w.push c [(att, false)])
+    | .nak => (.error (.tagCmd 2), w.push c [(att, false)])
     | .ok => (.ok (), (w.apply c).push c [(att, false)])
 
 structure Prim where
@@ -201,16 +259,27 @@ structure Prim where
   idm : Bool := true    -- Type 3: command with IDm and status flags
   deriving DecidableEq, Repr
 
+/-- one call of the retry primitive of the tag class.  Type 2 (`t12`; a Type 1 tag object never
+loses its target, `gone` and `lost` stay false there): nothing is sent once the target is gone;
+if the frontend has dropped its target without the tag object knowing, `clf.exchange` returns None
+and the caller fails with TypeError (`len(None)`) - unreachable, see `Sound`.  ISO-DEP: nothing is
+sent after an unrecoverable error. -/
 def prim (cfg : Cfg) (p : Prim) (c : Cmd) (a : Ans) (w : World) : (Py Unit) × World :=
   match p.kind with
-  | .t12 => loop cfg .t12 p.idm c a p.budget none [] w
+  | .t12 =>
+    if w.gone then (.error (.tagCmd 0), w)
+    else if w.lost then (.error .type_, w)
+    else loop cfg .t12 p.idm c a p.budget none [] w
   | .t3 => loop cfg .t3 p.idm c a p.budget none [] w
-  | .t4 => dep cfg p.budget c a (p.budget + 3) 1 false false [] w
-  | .raw => rawx c a w
+  | .t4 =>
+    match w.sticky with
+    | some e => (.error (.tagCmd e), w)
+    | none => dep cfg p.budget c (a.eff false) (p.budget + 3) 1 false false [] w
+  | .raw => rawx c (a.eff false) w
 
 /-! ## command programs -/
 
-inductive Val | none | false_ | true_ | ndef | unit | list
+inductive Val | none | false_ | true_ | ndef | unit | list | data
   deriving DecidableEq, Repr
 
 /-- which exceptions of the call the enclosing `try` catches -/
@@ -232,6 +301,7 @@ inductive Prog
   | reraise                         -- `raise` inside a handler
   | caseErr (zero neg pos : Unit → Prog)   -- handler branching on `error.errno`
   | call (p : Prim) (c : Cmd) (a : Ans) (catch_ : Catch) (ok err : Unit → Prog)
+  | sense (found gone : Unit → Prog)       -- `self._target = clf.sense(...)`, `... if self.target else ...`
 
 inductive Outcome | ok (v : Val) | exc (e : Exc)
   deriving DecidableEq, Repr
@@ -250,6 +320,8 @@ def run (cfg : Cfg) : Prog → Int → World → Outcome × World
       match ct.catches e with
       | some n => run cfg (err ()) n w'
       | Option.none => (.exc e, w')
+  | .sense f g, cur, w =>
+    if w.reactivate.1 then run cfg (f ()) cur w.reactivate.2 else run cfg (g ()) cur w.reactivate.2
 
 /-! ## operations -/
 
@@ -365,13 +437,22 @@ def prog (cfg : Cfg) (tlv : Bool) (fam op : String) (l : Phases) (v : Val) (nret
   | "t2", "protect" => some (c12 (.ret .false_) (ph l 0) fun _ => c12 .raise (ph l 1) (fin .true_))
   | "t2nxp", "protect" => some (c12 (.ret .false_) (ph l 0) (fin .true_))
   | "t2", "protectpw" => some (.ret .false_)
-  | "t2ulc", "protectpw" => some (c12 .raise (ph l 0) fun _ => c12 .raise (ph l 1) fun _ => c12 (.ret .false_) (ph l 2) (fin v))
-  | "t2ntag", "protectpw" => some (c12 .raise (ph l 0) fun _ => c12 (.ret .false_) (ph l 1) (fin v))
+  -- Ultralight C / NTAG21x protect with password: writes, re-activation, authenticate with the new key
+  | "t2ulc", "protectpw" =>
+    some (c12 .raise (ph l 0) fun _ =>
+            .sense (fun _ => c12 .raise (ph l 1) fun _ => c12 (.ret .false_) (ph l 2) (fin v)) (fin .false_))
+  | "t2ntag", "protectpw" =>
+    some (c12 .raise (ph l 0) fun _ => .sense (fun _ => c12 (.ret .false_) (ph l 1) (fin v)) (fin .false_))
   | "t2ulc", "auth" => some (c12 .raise (ph l 0) fun _ => c12 (.ret .false_) (ph l 1) (fin v))
   | "t2ntag", "auth" => some (c12 (.ret .false_) (ph l 0) (fin v))
+  | "t2ntag", "sig" => some (c12 (.ret .data) (ph l 0) (fin .data))   -- NTAG21x.signature: zeros on error
   | "t2", "dump" =>   -- header pages one by one, body until the first error, vendor footer one by one
     some (c12 .skip (ph l 0) fun _ =>
             c12 (.goto fun _ => c12 .skip (ph l 2) (fin .list)) (ph l 1) fun _ => c12 .skip (ph l 2) (fin .list))
+  | "t2i2c", "dump" =>   -- NTAG I2C: generic dump up to `stop`, then lock page, configuration and session registers unguarded
+    some (c12 .skip (ph l 0) fun _ =>
+            c12 (.goto fun _ => c12 .raise (ph l 2) (fin .list)) (ph l 1) fun _ => c12 .raise (ph l 2) (fin .list))
+  | "t2", "seq" => some (c12 .raise (ph l 0) (fin v))     -- read / write / sector_select / transceive
   -- Type 1
   | "t1", "ndef" => some (c12 (.ret .none) (ph l 0) fun _ => c12 (tlvPol .none) (ph l 1) (fin .ndef))
   | "t1", "write" => some (c12 .raise (ph l 0) (fin .unit))
@@ -381,6 +462,7 @@ def prog (cfg : Cfg) (tlv : Bool) (fam op : String) (l : Phases) (v : Val) (nret
     some (c12 (.ret .false_) (ph l 0) fun _ => c12 (tlvPol .false_) (ph l 1) fun _ => c12 .raise (ph l 2) (fin .true_))
   | "t1", "dump" =>
     some (c12 .raise (ph l 0) fun _ => c12 (.ret .list) (ph l 1) fun _ => c12 (.goto (fin .list)) (ph l 2) (fin .list))
+  | "t1", "seq" => some (c12 .raise (ph l 0) (fin v))     -- read_id / read_all / read_byte / read_block / read_segment / write_byte / write_block
   -- Type 3
   | "t3", "ndef" => some (c3p (.ret .none) (ph l 0) fun _ => c3 (.ret .none) (ph l 1) (fin .ndef))
   | "t3", "write" =>
@@ -398,15 +480,59 @@ def prog (cfg : Cfg) (tlv : Bool) (fam op : String) (l : Phases) (v : Val) (nret
             c3p (.goto fun _ => c3 .raise (ph l 4) (fin .true_)) (ph l 1) fun _ =>
             c3 (.goto fun _ => c3 .raise (ph l 4) (fin .true_)) (ph l 2) fun _ =>
             c3 .raise (ph l 3) fun _ => c3 .raise (ph l 4) (fin .true_))
+  | "lites", "protect" =>   -- Lite-S after the mutual authentication: the NDEF read looks at the memory configuration block, unguarded
+    some (c3 .raise (ph l 0) fun _ =>
+            c3p (.goto fun _ => c3 .raise (ph l 4) (fin .true_)) (ph l 1) fun _ =>
+            c3 (.goto fun _ => c3 .raise (ph l 4) (fin .true_)) (ph l 2) fun _ =>
+            c3 .raise (ph l 5) fun _ =>
+            c3 (.goto fun _ => c3 .raise (ph l 4) (fin .true_)) (ph l 6) fun _ =>
+            c3 .raise (ph l 3) fun _ => c3 .raise (ph l 4) (fin .true_))
   | "lite", "auth" => some (c3 .raise (ph l 0) (fin v))
   | "lite", "dump" => some (c3 .skip (ph l 0) fun _ => c3 .raise (ph l 1) fun _ => c3 .skip (ph l 2) (fin .list))
+  | "t3", "seq" => some (c3 .raise (ph l 0) (fin v))      -- read / write without encryption, with and without MAC, request service ...
+  | "t3p", "seq" => some (c3p .raise (ph l 0) (fin v))    -- polling
   -- Type 4
   | "t4", "ndef" => some (c4 (.ret .none) (ph l 0) (fin .ndef))
   | "t4", "write" => some (c4 .raise (ph l 0) (fin .unit))
   | "t4", "present" => some (chain cfg ⟨.raw, 1, true⟩ .commErr (.ret .false_) (ph l 0) (fin .true_))
   | "t4", "format" => some (c4 (.ret .false_) (ph l 0) fun _ => c4 (.ret .false_) (ph l 1) (fin .true_))
   | "t4", "dump" => some (c4 (.ret .list) (ph l 0) fun _ => c4 (.goto (fin .list)) (ph l 1) (fin .list))
+  | "t4", "seq" => some (c4 .raise (ph l 0) (fin v))      -- send_apdu / transceive
   | _, "noop" => some (.ret v)
   | _, _ => Option.none
+
+/-! ## sessions: several operations on one tag object -/
+
+/-- one operation of a session.  `usesNdef`: the operation starts by evaluating `tag.ndef`, which
+reads the NDEF data unless a `Tag.NDEF` object is cached from an earlier operation (`ndef`, `write`,
+Type 4 `dump` / `format`, generic Type 2 `format` / `protect`); when that read gives None the
+operation ends with `noneVal`.  `fresh` / `cached`: the rest of the operation when no NDEF object
+is / one is cached.  `clears`: the result True resets the cache (`format`, `protect`, `authenticate`). -/
+structure SOp where
+  usesNdef : Bool
+  noneVal : Val
+  clears : Bool
+  fresh : Prog
+  cached : Prog
+
+/-- one operation; `read` is the NDEF read of the tag class, `cached` whether `tag._ndef` is set -/
+def stepOp (cfg : Cfg) (read : Prog) (o : SOp) (cached : Bool) (w : World) : Outcome × Bool × World :=
+  if o.usesNdef && !cached then
+    match run cfg read 0 w with
+    | (.ok .ndef, w1) =>
+      let r := run cfg o.cached 0 w1
+      (r.1, !(o.clears && r.1 == .ok .true_), r.2)
+    | (.ok _, w1) => (.ok o.noneVal, false, w1)
+    | (.exc e, w1) => (.exc e, false, w1)
+  else
+    let r := run cfg (if cached then o.cached else o.fresh) 0 w
+    (r.1, cached && !(o.clears && r.1 == .ok .true_), r.2)
+
+def session (cfg : Cfg) (read : Prog) : List SOp → Bool → World → List Outcome × World
+  | [], _, w => ([], w)
+  | o :: os, cached, w =>
+    let r := stepOp cfg read o cached w
+    let rest := session cfg read os r.2.1 r.2.2
+    (r.1 :: rest.1, rest.2)
 
 end NfcVerif.Retry
